@@ -279,7 +279,8 @@ func (s *Sim) ApplyEdit(op Op) EditInfo {
 			return info
 		}
 		t := &m.Targets[id]
-		name := fmt.Sprintf("a%d_%d.txt", id, len(t.Sources))
+		m.Seq++
+		name := fmt.Sprintf("a%d_%d.txt", id, m.Seq) // never re-creates an earlier name
 		t.Sources = append(t.Sources, name)
 		m.Files[m.Rel(t.Pkg, name)] = op.S
 		info.Semantic, info.Affected, info.Applied = true, []int{id}, true
